@@ -151,6 +151,39 @@ func c05Run(c *fw.Ctx, i int) {
 		}
 		c.NontrivialStr(fmt.Sprintf("%d-%d-%d", y, m, d))
 	}
+	// the same date read from text (what a decoded file goes through): same
+	// bounds, same fractional year
+	months := [2][]string{{"Jan", "Feb", "Mar", "Apr", "May", "Jun", "Jul", "Aug", "Sep", "Oct", "Nov", "Dec"}, {"JAN", "FEB", "MAR", "APR", "MAY", "JUN", "JUL", "AUG", "SEP", "OCT", "NOV", "DEC"}}
+	fromText := func(y, m, d int) *gedcom.DateNode {
+		var text string
+		switch {
+		case m == 0:
+			text = fmt.Sprintf("%d", y)
+		case d == 0:
+			text = fmt.Sprintf("%s %d", months[(y+m)%2][m-1], y)
+		default:
+			text = fmt.Sprintf("%d %s %d", d, months[(y+d)%2][m-1], y)
+			if d%7 == 3 {
+				text = fmt.Sprintf("%02d %s %04d", d, months[(y+d)%2][m-1], y)
+			}
+		}
+		n := gedcom.NewDateNode(text)
+		c.Count("dates-read-from-text", 1)
+		first, last := ref.Period(y, m, d)
+		st, et := n.StartDate().Time(), n.EndDate().Time()
+		if !n.IsValid() || st.Unix() != first*86400 || st.Nanosecond() != 0 || et.Unix() != (last+1)*86400-1 || et.Nanosecond() != 999999999 {
+			bad("text-bounds", y, m, d, "DATE %q: valid=%v, bounds %s .. %s, want the period of unix days %d .. %d", text, n.IsValid(), st.UTC().Format(time.RFC3339Nano), et.UTC().Format(time.RFC3339Nano), first, last)
+		}
+		lit := gedcom.Date{Day: d, Month: time.Month(m), Year: y}
+		if a, b := n.StartDate().Years(), lit.Years(); a != b {
+			bad("text-years", y, m, d, "DATE %q: Years() of the start %.9f, of the same date built directly %.9f", text, a, b)
+		}
+		if a, b := n.Years(), gedcom.NewDateRange(lit, gedcom.Date{Day: d, Month: time.Month(m), Year: y, IsEndOfRange: true}).Years(); a != b {
+			bad("text-years", y, m, d, "DATE %q: Years() of the node %.9f, of the same range built directly %.9f", text, a, b)
+		}
+		return n
+	}
+	var prevNode *gedcom.DateNode
 	var prevYears float64
 	havePrev := false
 	prevY, prevM, prevD := 0, 0, 0
@@ -172,6 +205,30 @@ func c05Run(c *fw.Ctx, i int) {
 				bad("order-adjacent-days", prevY, prevM, prevD, "IsBefore/IsAfter disagree with calendar order for consecutive days")
 			}
 		}
+		node := fromText(y, m, d)
+		if havePrev {
+			// the same pair through ranges and through DATE nodes
+			p := gedcom.Date{Day: prevD, Month: time.Month(prevM), Year: prevY}
+			pe, de := p, dt
+			pe.IsEndOfRange, de.IsEndOfRange = true, true
+			pr, dr := gedcom.NewDateRange(p, pe), gedcom.NewDateRange(dt, de)
+			if !pr.IsBefore(dr) || !dr.IsAfter(pr) || pr.IsAfter(dr) || dr.IsBefore(pr) {
+				bad("order-adjacent-days-range", prevY, prevM, prevD, "DateRange.IsBefore/IsAfter disagree with calendar order for consecutive days: before %v/%v after %v/%v", pr.IsBefore(dr), dr.IsBefore(pr), dr.IsAfter(pr), pr.IsAfter(dr))
+			}
+			if !prevNode.IsBefore(node) || !node.IsAfter(prevNode) || prevNode.IsAfter(node) || node.IsBefore(prevNode) {
+				bad("order-adjacent-days-node", prevY, prevM, prevD, "DateNode.IsBefore/IsAfter disagree with calendar order for %q and the next day %q", prevNode.Value(), node.Value())
+			}
+			if !(prevNode.Years() < node.Years()) {
+				bad("years-monotone-node", prevY, prevM, prevD, "DateNode.Years(%q)=%.9f is not < that of the next day %q = %.9f", prevNode.Value(), prevNode.Years(), node.Value(), node.Years())
+			}
+			if mn := (gedcom.DateNodes{node, prevNode}).Minimum(); mn != prevNode {
+				bad("minimum-adjacent-days", prevY, prevM, prevD, "Minimum of %q and the day before is not the day before", node.Value())
+			}
+			if mx := (gedcom.DateNodes{node, prevNode}).Maximum(); mx != node {
+				bad("maximum-adjacent-days", prevY, prevM, prevD, "Maximum of %q and the day before is not %q", node.Value(), node.Value())
+			}
+		}
+		prevNode = node
 		if ve < v {
 			bad("years-end-flag", y, m, d, "Years() with IsEndOfRange=%.9f < without=%.9f", ve, v)
 		}
@@ -203,6 +260,7 @@ func c05Run(c *fw.Ctx, i int) {
 			lastOfYear = v
 		}
 		checkBounds(y, m, 0)
+		fromText(y, m, 0)
 		c.Count("month-years", 1)
 		pv := gedcom.Date{Month: time.Month(m), Year: y}.Years()
 		if pv < firstV || pv > lastV {
@@ -211,6 +269,7 @@ func c05Run(c *fw.Ctx, i int) {
 		// a day the calendar does not have must not be silently accepted as a bound
 	}
 	checkBounds(y, 0, 0)
+	fromText(y, 0, 0)
 	c.Count("year-only", 1)
 	yv := gedcom.Date{Year: y}.Years()
 	if yv < firstOfYear || yv > lastOfYear {
